@@ -284,6 +284,31 @@ func (c *tctx) Cmp(op string, a, b *Term) *Term {
 	if op == "bvult" && b.isConst() && b.k == 0 {
 		return c.ff
 	}
+	// cheap unsigned range reasoning
+	if op == "bvult" || op == "bvule" {
+		ua, la := ubound(a, 0), lbound(a)
+		ub, lb := ubound(b, 0), lbound(b)
+		if op == "bvult" {
+			if ua < lb {
+				return c.tt
+			}
+			if la >= ub {
+				return c.ff
+			}
+		} else {
+			if ua <= lb {
+				return c.tt
+			}
+			if la > ub {
+				return c.ff
+			}
+		}
+	}
+	if op == "=" {
+		if ubound(a, 0) < lbound(b) || ubound(b, 0) < lbound(a) {
+			return c.ff
+		}
+	}
 	if op == "bvule" && a.isConst() && a.k == 0 {
 		return c.tt
 	}
@@ -668,3 +693,86 @@ func (t *Term) str(sb *strings.Builder, depth int) {
 }
 
 var _ = bits.Len
+
+// ubound is a cheap syntactic upper bound of t as an unsigned number.
+func ubound(t *Term, depth int) uint64 {
+	m := mask(t.w)
+	if depth > 8 {
+		return m
+	}
+	switch t.op {
+	case "const":
+		return t.k
+	case "zext":
+		return ubound(t.args[0], depth+1)
+	case "extract":
+		if t.k2 == 0 {
+			u := ubound(t.args[0], depth+1)
+			if u < m {
+				return u
+			}
+		}
+		return m
+	case "bvlshr":
+		if t.args[1].isConst() {
+			if t.args[1].k >= uint64(t.w) {
+				return 0
+			}
+			return ubound(t.args[0], depth+1) >> t.args[1].k
+		}
+		return ubound(t.args[0], depth+1)
+	case "bvand":
+		a, b := ubound(t.args[0], depth+1), ubound(t.args[1], depth+1)
+		if a < b {
+			return a
+		}
+		return b
+	case "bvor", "bvxor":
+		a, b := ubound(t.args[0], depth+1), ubound(t.args[1], depth+1)
+		x := a | b
+		// smallest 2^k-1 >= x
+		r := uint64(0)
+		for r < x {
+			r = r<<1 | 1
+		}
+		if r < m {
+			return r
+		}
+		return m
+	case "ite":
+		a, b := ubound(t.args[1], depth+1), ubound(t.args[2], depth+1)
+		if a > b {
+			return a
+		}
+		return b
+	case "bvurem":
+		if t.args[1].isConst() && t.args[1].k > 0 {
+			u := t.args[1].k - 1
+			if a := ubound(t.args[0], depth+1); a < u {
+				return a
+			}
+			return u
+		}
+		return ubound(t.args[0], depth+1)
+	case "bvudiv":
+		if t.args[1].isConst() && t.args[1].k > 0 {
+			return ubound(t.args[0], depth+1) / t.args[1].k
+		}
+		return ubound(t.args[0], depth+1)
+	case "bvadd":
+		a, b := ubound(t.args[0], depth+1), ubound(t.args[1], depth+1)
+		if a+b >= a && a+b <= m {
+			return a + b
+		}
+		return m
+	}
+	return m
+}
+
+// lbound is a cheap lower bound (only constants are informative).
+func lbound(t *Term) uint64 {
+	if t.op == "const" {
+		return t.k
+	}
+	return 0
+}
